@@ -96,15 +96,17 @@ def s_explicit_roots():
         tdef("object", "A", fields=[fdef("x", N("Int"))]), tdef("object", "B", fields=[fdef("y", N("Int"))]),
         tdef("union", "U", members=["A"]), tdef("enum", "E", values=[evalue("ONE")]),
         tdef("input", "In", input_fields=[ival("a", N("Int"))]), tdef("scalar", "Sc"), tdef("interface", "I", fields=[fdef("x", N("Int"))]),
+        tdef("interface", "Base", fields=[fdef("x", N("Int"))]),
         dirdef("mark", ["SCHEMA", "SCALAR", "OBJECT", "INTERFACE", "UNION", "ENUM", "INPUT_OBJECT"]),
         schema_def([("subscription", "S")], True, [G.directive("mark")]),
         tdef("object", "S", fields=[fdef("s", N("Int"))]),
-        tdef("object", "A", True, interfaces=["I"], dirs=[G.directive("mark")], fields=[fdef("z", N("Sc"))]),
+        tdef("object", "A", True, interfaces=["I", "Base"], dirs=[G.directive("mark")], fields=[fdef("z", N("Sc"))]),
         tdef("union", "U", True, members=["B"], dirs=[G.directive("mark")]),
         tdef("enum", "E", True, values=[evalue("TWO")], dirs=[G.directive("mark")]),
         tdef("input", "In", True, input_fields=[ival("b", N("String"), G.v_str("d"))], dirs=[G.directive("mark")]),
         tdef("scalar", "Sc", True, dirs=[G.directive("mark")]),
-        tdef("interface", "I", True, fields=[fdef("w", N("Int"))], dirs=[G.directive("mark")]),
+        # an interface EXTENSION that adds an `implements` clause (interfaces implementing interfaces)
+        tdef("interface", "I", True, interfaces=["Base"], fields=[fdef("w", N("Int"))], dirs=[G.directive("mark")]),
         tdef("object", "A", True, fields=[fdef("w", N("Int"))]),
     ]}
 
